@@ -10,7 +10,10 @@
 //! the real `FriProof::compress` with synthetic (honestly committed) FRI proofs.
 use std::collections::{BTreeMap, BTreeSet, HashMap};
 use std::io::BufRead;
-use std::sync::Arc;
+use std::cell::Cell;
+use std::sync::atomic::{AtomicU64, Ordering};
+use std::sync::{mpsc, Arc};
+use std::time::Duration;
 
 use plonky2::field::extension::{flatten, Extendable, FieldExtension};
 use plonky2::field::polynomial::PolynomialCoeffs;
@@ -25,9 +28,9 @@ use plonky2::hash::poseidon::PoseidonHash;
 use plonky2::iop::target::Target;
 use plonky2::iop::witness::{PartialWitness, WitnessWrite};
 use plonky2::plonk::circuit_builder::CircuitBuilder;
-use plonky2::plonk::circuit_data::{CircuitConfig, CircuitData};
+use plonky2::plonk::circuit_data::{CircuitConfig, CircuitData, VerifierCircuitData};
 use plonky2::plonk::config::{GenericConfig, KeccakGoldilocksConfig, PoseidonGoldilocksConfig};
-use plonky2::plonk::proof::ProofWithPublicInputs;
+use plonky2::plonk::proof::{CompressedProofWithPublicInputs, ProofWithPublicInputs};
 use plonky2::verif_exports::compress_merkle_proofs;
 use rand::Rng;
 use rand_chacha::ChaCha8Rng;
@@ -134,6 +137,8 @@ struct Stats {
     roundtrips: u64,
     recompressions: u64,
     roundtrips_by_schedule: BTreeMap<String, u64>,
+    abandoned_by_schedule: BTreeMap<String, u64>,
+    skipped_after_nontermination: BTreeMap<String, u64>,
     verdict_pairs: u64,
     tampered: u64,
     tampered_both_accept: u64,
@@ -178,11 +183,66 @@ fn classify(q: &[usize], ar: &[usize]) -> (bool, Vec<bool>) {
     (rep, share)
 }
 
+
+// ------------------------------------------------------------------------------------------
+// watchdog: every library call on a real proof runs on a worker thread with a deadline.  A call that
+// does not return on an honest input is data (like a panic): the thread is abandoned (never joined),
+// the configuration is given up, and the process ends with std::process::exit.
+// ------------------------------------------------------------------------------------------
+static DEADLINE_MS: AtomicU64 = AtomicU64::new(20_000);
+static ABANDONED: AtomicU64 = AtomicU64::new(0);
+
+struct Lib<C: GenericConfig<D, F = F>> {
+    vd: Arc<VerifierCircuitData<F, C, D>>,
+    timed_out: Cell<Option<&'static str>>,
+}
+impl<C: GenericConfig<D, F = F> + 'static> Lib<C> {
+    fn call<T: Send + 'static>(&self, what: &'static str,
+                               f: impl FnOnce(&VerifierCircuitData<F, C, D>) -> anyhow::Result<T> + Send + 'static)
+        -> Result<anyhow::Result<T>, String> {
+        if self.timed_out.get().is_some() {
+            return Err("not run: an earlier call of this configuration did not terminate".into());
+        }
+        let vd = self.vd.clone();
+        let (tx, rx) = mpsc::channel();
+        let spawned = std::thread::Builder::new().stack_size(64 << 20).spawn(move || {
+            let r = guarded(|| f(&vd));
+            let _ = tx.send(r);
+        });
+        if let Err(e) = spawned {
+            return Err(format!("could not spawn a worker thread: {e}"));
+        }
+        // once threads were abandoned the machine is busy with them: be less patient
+        let ms = DEADLINE_MS.load(Ordering::Relaxed);
+        let ms = if ABANDONED.load(Ordering::Relaxed) >= 3 { (ms / 4).max(2_000) } else { ms };
+        match rx.recv_timeout(Duration::from_millis(ms)) {
+            Ok(r) => r,
+            Err(_) => {
+                ABANDONED.fetch_add(1, Ordering::Relaxed);
+                self.timed_out.set(Some(what));
+                Err(format!("{what} does not terminate (no result after {ms} ms)"))
+            }
+        }
+    }
+    fn verify(&self, p: ProofWithPublicInputs<F, C, D>) -> Result<anyhow::Result<()>, String> {
+        self.call("verify", move |vd| vd.verify(p))
+    }
+    fn verify_compressed(&self, c: CompressedProofWithPublicInputs<F, C, D>) -> Result<anyhow::Result<()>, String> {
+        self.call("verify-compressed", move |vd| vd.verify_compressed(c))
+    }
+    fn compress(&self, p: ProofWithPublicInputs<F, C, D>) -> Result<anyhow::Result<CompressedProofWithPublicInputs<F, C, D>>, String> {
+        self.call("compress", move |vd| p.compress(&vd.verifier_only.circuit_digest, &vd.common))
+    }
+    fn decompress(&self, c: CompressedProofWithPublicInputs<F, C, D>) -> Result<anyhow::Result<ProofWithPublicInputs<F, C, D>>, String> {
+        self.call("decompress", move |vd| c.decompress(&vd.verifier_only.circuit_digest, &vd.common))
+    }
+}
+
 fn ok<T>(r: Result<anyhow::Result<T>, String>) -> bool {
     matches!(r, Ok(Ok(_)))
 }
 
-fn one_config<C: GenericConfig<D, F = F>>(cfg: &Cfg, nproofs: usize, r: &mut ChaCha8Rng, st: &mut Stats,
+fn one_config<C: GenericConfig<D, F = F> + 'static>(cfg: &Cfg, nproofs: usize, r: &mut ChaCha8Rng, st: &mut Stats,
                                           traces: &mut Option<NdJson>, flip: bool) {
     let built = match guarded(|| build::<C>(cfg)) {
         Ok(b) => b,
@@ -204,6 +264,25 @@ fn one_config<C: GenericConfig<D, F = F>>(cfg: &Cfg, nproofs: usize, r: &mut Cha
     st.configs += 1;
     let ar = params.reduction_arity_bits.clone();
     let n = params.lde_bits();
+    let sched = format!("{ar:?}").replace(' ', "");
+    if st.abandoned_by_schedule.get(&sched).copied().unwrap_or(0) >= 3 {
+        // three calls under this schedule already failed to terminate: do not swamp the machine
+        st.configs -= 1;
+        *st.skipped_after_nontermination.entry(sched).or_insert(0) += 1;
+        return;
+    }
+    let lib = Lib::<C> { vd: Arc::new(data.verifier_data()), timed_out: Cell::new(None) };
+    // a library call that did not return within the deadline: VIOLATION, give this configuration up
+    macro_rules! gave_up {
+        ($st:expr, $ctx:expr, $q:expr) => {
+            if let Some(what) = lib.timed_out.get() {
+                $st.violation(json!({"key": format!("C16/roundtrip/{sched}/{what}-does-not-terminate"), "ctx": $ctx, "q": $q,
+                    "deadline_ms": DEADLINE_MS.load(Ordering::Relaxed), "threads_abandoned_so_far": ABANDONED.load(Ordering::Relaxed)}));
+                *$st.abandoned_by_schedule.entry(sched.clone()).or_insert(0) += 1;
+                return;
+            }
+        };
+    }
     st.lde_bits.insert(n);
     st.schedules.insert(format!("{ar:?}"));
     if st.cls_share.len() < ar.len() {
@@ -226,10 +305,11 @@ fn one_config<C: GenericConfig<D, F = F>>(cfg: &Cfg, nproofs: usize, r: &mut Cha
         };
         st.proofs += 1;
         let ctx = json!({"cfg": cfg.id(), "proof_no": pn, "lde_bits": n, "arities": ar, "cap_height": cfg.cap});
-        let accepted = ok(guarded(|| data.verify(proof.clone())));
+        let accepted = ok(lib.verify(proof.clone()));
+        gave_up!(st, ctx, Value::Null);
         if !accepted {
             st.honest_rejected.push(json!({"cfg": cfg.id(), "lde_bits": n, "arities": ar,
-                "err": format!("{:?}", guarded(|| data.verify(proof.clone()).map_err(|e| format!("{e:#}"))))}));
+                "err": format!("{:?}", lib.verify(proof.clone()).map(|r| r.map_err(|e| format!("{e:#}"))))}));
         }
         let q = match guarded(|| proof.get_challenges(proof.get_public_inputs_hash(), &data.verifier_only.circuit_digest, &data.common)) {
             Ok(Ok(c)) => c.fri_challenges.fri_query_indices,
@@ -242,19 +322,19 @@ fn one_config<C: GenericConfig<D, F = F>>(cfg: &Cfg, nproofs: usize, r: &mut Cha
         }
         st.cls_distinct += (!rep && !share.iter().any(|s| *s)) as u64;
         // ---- honest proof: round trip and verdict equivalence
-        let comp = guarded(|| data.compress(proof.clone()));
+        let comp = lib.compress(proof.clone());
         let cp = match comp {
             Ok(Ok(c)) => Some(c),
             _ => None,
         };
-        let sched = format!("{ar:?}").replace(' ', "");
         let key = |what: &str| format!("C16/roundtrip/{sched}/{what}");
         if accepted {
             match &cp {
+                None if lib.timed_out.get().is_some() => {}
                 None => st.violation(json!({"key": key("compress-fails"), "ctx": ctx, "q": q,
-                                            "err": format!("{:?}", guarded(|| data.compress(proof.clone()).map(|_| ()).map_err(|e| format!("{e:#}"))))})),
+                                            "err": format!("{:?}", lib.compress(proof.clone()).map(|r| r.map(|_| ()).map_err(|e| format!("{e:#}"))))})),
                 Some(c) => {
-                    match guarded(|| data.decompress(c.clone())) {
+                    match lib.decompress(c.clone()) {
                         Ok(Ok(mut dp)) => {
                             if flip {
                                 // binding canary: one flipped element must be reported
@@ -269,28 +349,32 @@ fn one_config<C: GenericConfig<D, F = F>>(cfg: &Cfg, nproofs: usize, r: &mut Cha
                             } else {
                                 // compress(decompress(c)) == c
                                 st.recompressions += 1;
-                                match guarded(|| data.compress(dp.clone())) {
+                                match lib.compress(dp.clone()) {
                                     Ok(Ok(c2)) => {
                                         if &c2 != c {
                                             st.violation(json!({"key": key("compress-decompress-not-identity"), "ctx": ctx, "q": q}));
                                         }
                                     }
+                                    Err(_) if lib.timed_out.get().is_some() => {}
                                     other => st.violation(json!({"key": key("recompress-fails"), "ctx": ctx, "q": q,
                                                                  "err": format!("{:?}", other.err())})),
                                 }
                             }
                         }
                         Ok(Err(e)) => st.violation(json!({"key": key("decompress-fails"), "ctx": ctx, "q": q, "err": format!("{e:#}")})),
+                        Err(_) if lib.timed_out.get().is_some() => {}
                         Err(m) => st.violation(json!({"key": key("decompress-panics"), "ctx": ctx, "q": q, "err": m})),
                     }
                 }
             }
         }
+        gave_up!(st, ctx, q);
         let vc_res = match &cp {
-            Some(c) => guarded(|| data.verify_compressed(c.clone()).map_err(|e| format!("{e:#}"))),
+            Some(c) => lib.verify_compressed(c.clone()).map(|r| r.map_err(|e| format!("{e:#}"))),
             None => Ok(Err("compress failed".to_string())),
         };
         let vc = matches!(vc_res, Ok(Ok(())));
+        gave_up!(st, ctx, q);
         st.verdict_pairs += 1;
         if vc != accepted {
             st.violation(json!({"key": key("verdict-honest"), "ctx": ctx, "verify": accepted, "verify_compressed": vc,
@@ -379,15 +463,16 @@ fn one_config<C: GenericConfig<D, F = F>>(cfg: &Cfg, nproofs: usize, r: &mut Cha
                 },
                 _ => unreachable!(),
             }
-            let v2 = ok(guarded(|| data.verify(p2.clone())));
-            let c2 = guarded(|| data.compress(p2.clone()));
+            let v2 = ok(lib.verify(p2.clone()));
+            let c2 = lib.compress(p2.clone());
             let (vc2, c2v) = match c2 {
-                Ok(Ok(c)) => (ok(guarded(|| data.verify_compressed(c.clone()))), Some(c)),
+                Ok(Ok(c)) => (ok(lib.verify_compressed(c.clone())), Some(c)),
                 _ => {
                     st.tampered_compress_panics += 1;
                     (false, None)
                 }
             };
+            gave_up!(st, json!({"cfg": cfg.id(), "proof_no": pn, "tamper": kind, "lde_bits": n, "arities": ar}), q);
             if redundant {
                 // compression discards exactly this datum: the compressed proof is the honest one
                 st.redundant_tampers += 1;
@@ -518,6 +603,7 @@ fn real(args: &[String]) -> anyhow::Result<()> {
     let nproofs = opt_usize(args, "--proofs", 3);
     let flip = args.iter().any(|a| a == "--canary-flip");
     let limit = opt_usize(args, "--limit", usize::MAX);
+    DEADLINE_MS.store(opt_usize(args, "--deadline-ms", 20_000) as u64, Ordering::Relaxed);
     let mut traces = match opt(args, "--traces") {
         Some(p) => Some(NdJson::create(p)?),
         None => None,
@@ -536,14 +622,19 @@ fn real(args: &[String]) -> anyhow::Result<()> {
     let ntraces = traces.map(|t| t.finish()).unwrap_or(0);
     emit(&json!({"kind": "c16-real", "configs": st.configs, "skipped_configs": st.skipped_configs, "skip_reasons": st.skip_reasons, "honest_rejected": st.honest_rejected, "proofs": st.proofs,
         "roundtrips": st.roundtrips, "recompressions": st.recompressions,
-        "roundtrips_by_schedule": st.roundtrips_by_schedule, "verdict_pairs": st.verdict_pairs, "tampered": st.tampered,
+        "roundtrips_by_schedule": st.roundtrips_by_schedule, "abandoned_by_schedule": st.abandoned_by_schedule,
+        "configs_skipped_after_nontermination": st.skipped_after_nontermination,
+        "threads_abandoned": ABANDONED.load(Ordering::Relaxed), "verdict_pairs": st.verdict_pairs, "tampered": st.tampered,
         "tampered_both_accept": st.tampered_both_accept, "tampered_compress_panics": st.tampered_compress_panics,
         "redundant_tampers": st.redundant_tampers, "redundant_rejected_plain": st.redundant_rejected_plain,
         "redundant_accepted_compressed": st.redundant_accepted_compressed,
         "classes": {"repeated_index": st.cls_repeat, "shared_coset_per_layer": st.cls_share, "all_distinct": st.cls_distinct},
         "lde_bits": st.lde_bits, "schedules": st.schedules, "traces": ntraces,
         "violations": st.violations, "drift": st.drift, "samples": st.samples}));
-    Ok(())
+    // abandoned worker threads must not keep the process alive
+    use std::io::Write;
+    std::io::stdout().flush().ok();
+    std::process::exit(0);
 }
 
 // ------------------------------------------------------------------------------------------
